@@ -11,7 +11,7 @@ def cubes_access(tier):
                [dict(lazy="d", op1=o, nops=2, ops2=[0, 1, 2, 3], backend="sqlite", _w=2) for o in (0, 1, 2)] + \
                [dict(lazy="d/s", op1=4, nops=2, ops2=[1, 5, 6], backend="sqlite", _w=2)]
     out = [dict(lazy=l, op1=o, nops=2, shape=s, _w=2) for l in ("d", "d/s") for o in range(7)
-           for s in ([1, 1, 1, 1], [1, 0, 1, 1], [0, 1, 1, 0], [1, 1, 0, 1])]
+           for s in ([1, 1, 1, 1], [1, 0, 1, 1], [0, 1, 1, 0], [1, 1, 0, 1]) if not (l == "d/s" and not s[2])]  # d/s needs its file d/s/b
     out += [dict(lazy="d", op1=o, nops=3, _w=8) for o in range(7)]
     out += [dict(lazy=l, op1=o, nops=2, where="remote", _w=2) for l in ("d", "d/s") for o in range(7)]
     out += [dict(lazy=l, op1=o, nops=2, backend="sqlite", _w=3) for l in ("d", "d/s") for o in range(7)]
